@@ -33,7 +33,7 @@ func newSessionManager(s *session.Store) *sessionManager {
 }
 
 // get token from session
-func (m *sessionManager) getRaw(c fiber.Ctx, key string, raw []byte) []byte {
+func (m *sessionManager) getRaw(c fiber.Ctx, key string, raw []byte) ([]byte, error) {
 	sess := session.FromContext(c)
 	var token Token
 	var ok bool
@@ -44,57 +44,58 @@ func (m *sessionManager) getRaw(c fiber.Ctx, key string, raw []byte) []byte {
 		// Try to get the session from the store
 		storeSess, err := m.session.Get(c)
 		if err != nil {
-			// Handle error
-			return nil
+			return nil, err
 		}
 		token, ok = storeSess.Get(sessionKey).(Token)
 	}
 
 	if ok {
 		if token.Expiration.Before(time.Now()) || key != token.Key || !compareTokens(raw, token.Raw) {
-			return nil
+			return nil, nil
 		}
-		return token.Raw
+		return token.Raw, nil
 	}
 
-	return nil
+	return nil, nil
 }
 
 // set token in session
-func (m *sessionManager) setRaw(c fiber.Ctx, key string, raw []byte, exp time.Duration) {
+func (m *sessionManager) setRaw(c fiber.Ctx, key string, raw []byte, exp time.Duration) error {
 	sess := session.FromContext(c)
 	if sess != nil {
 		// the key is crucial in crsf and sometimes a reference to another value which can be reused later(pool/unsafe values concept), so a copy is made here
 		sess.Set(sessionKey, Token{Key: key, Raw: raw, Expiration: time.Now().Add(exp)})
-	} else {
-		// Try to get the session from the store
-		storeSess, err := m.session.Get(c)
-		if err != nil {
-			// Handle error
-			return
-		}
-		storeSess.Set(sessionKey, Token{Key: key, Raw: raw, Expiration: time.Now().Add(exp)})
-		if err := storeSess.Save(); err != nil {
-			log.Warn("csrf: failed to save session: ", err)
-		}
+		return nil
 	}
+	// Try to get the session from the store
+	storeSess, err := m.session.Get(c)
+	if err != nil {
+		return err
+	}
+	storeSess.Set(sessionKey, Token{Key: key, Raw: raw, Expiration: time.Now().Add(exp)})
+	if err := storeSess.Save(); err != nil {
+		log.Warn("csrf: failed to save session: ", err)
+		return err
+	}
+	return nil
 }
 
 // delete token from session
-func (m *sessionManager) delRaw(c fiber.Ctx) {
+func (m *sessionManager) delRaw(c fiber.Ctx) error {
 	sess := session.FromContext(c)
 	if sess != nil {
 		sess.Delete(sessionKey)
-	} else {
-		// Try to get the session from the store
-		storeSess, err := m.session.Get(c)
-		if err != nil {
-			// Handle error
-			return
-		}
-		storeSess.Delete(sessionKey)
-		if err := storeSess.Save(); err != nil {
-			log.Warn("csrf: failed to save session: ", err)
-		}
+		return nil
 	}
+	// Try to get the session from the store
+	storeSess, err := m.session.Get(c)
+	if err != nil {
+		return err
+	}
+	storeSess.Delete(sessionKey)
+	if err := storeSess.Save(); err != nil {
+		log.Warn("csrf: failed to save session: ", err)
+		return err
+	}
+	return nil
 }
